@@ -2,7 +2,7 @@
 from vlib import q
 from vlib.cfg import cfg_of
 from vlib.paths import decision_table
-from vlib.prov import peel, fmt, is_param, contains, alts, deep_peel, same_origin, root_param
+from vlib.prov import peel, fmt, is_param, contains, alts, deep_peel, same_origin, root_param, just
 
 LEVEL = "other"
 LEVEL_TEXT = (
@@ -97,9 +97,18 @@ def r2(ctx, cfg, R="C06.R2"):
         ins = q.calls(f, "std::collections::BTreeMap::insert")
         # (RepLog::append is always spliced - vlib/inline.py ALWAYS_INLINE: the log entry is `rep_log.ops_log.push(op)`)
         app = [(b0, t0) for b0, t0 in q.calls(f, "std::vec::Vec::push") if _self_field_path(P.call_args(f, t0, b0)[0], ("rep_log", "ops_log"))]
-        ctx.ob(R, ST + name, "one-insert-one-append", len(ins) == 1 and len(app) == 1,
-               "expected one local_state.insert and one rep_log.append, found %d/%d" % (len(ins), len(app)), fn=f, sample="1/1")
-        if len(ins) != 1 or len(app) != 1:
+        # (an entry that exists already may be overwritten in place instead: `match local_state.get_mut(key) { Some(slot) => *slot = delta,
+        #  None => { local_state.insert(key.to_vec(), delta); } }` leaves the same map as the plain insert)
+        slots = []
+        for b0, i0, st0 in f.stmts():
+            if st0["k"] == "assign" and [e["k"] for e in st0["dst"]["p"]] == ["deref"]:
+                sl = peel(P.local(f, st0["dst"]["l"], (b0, i0)))
+                if sl[0] == "some" and peel(sl[1])[0] == "call" and peel(sl[1])[1] == "std::collections::BTreeMap::get_mut":
+                    ga = peel(sl[1])[2]
+                    slots.append((b0, i0, st0, _self_field(ga[0], "local_state") and is_param(ga[1], "key")))
+        ctx.ob(R, ST + name, "one-insert-one-append", len(ins) == 1 and len(app) == 1 and len(slots) <= 1,
+               "expected one local_state.insert and one rep_log.append, found %d/%d (and %d overwrites in place)" % (len(ins), len(app), len(slots)), fn=f, sample="1/1")
+        if len(ins) != 1 or len(app) != 1 or len(slots) > 1:
             continue
         (ib, it), (ab, at) = ins[0], app[0]
         ia, aa = P.call_args(f, it, ib), P.call_args(f, at, ab)
@@ -110,6 +119,10 @@ def r2(ctx, cfg, R="C06.R2"):
         ok = ok and d[0] == "agg" and d[1] == T + "Delta::" + variant
         if ok and variant == "Set":
             ok = is_param(dict(d[2]).get("value", ("?",)), "value")
+        for b0, i0, st0, right_slot in slots:
+            d0 = peel(P.rvalue(f, st0["rv"], (b0, i0)))
+            ok = ok and right_slot and d0[0] == "agg" and d0[1] == T + "Delta::" + variant and \
+                (variant != "Set" or is_param(dict(d0[2]).get("value", ("?",)), "value"))
         ctx.ob(R, ST + name, "overlay-records-%s(key)" % variant, ok,
                "local_state.insert(%s, %s)" % (fmt(ia[1]), fmt(ia[2])[:100]), fn=f, line=it["line"],
                sample="local_state.insert(key, Op::%s{..}.to_delta())" % variant)
@@ -121,7 +134,8 @@ def r2(ctx, cfg, R="C06.R2"):
         ctx.ob(R, ST + name, "log-records-%s(params)" % variant, ok, "rep_log.append(%s)" % fmt(aa[1])[:120], fn=f,
                line=at["line"], sample="rep_log.append(Op::%s{%s})" % (variant, ", ".join(fields)))
         rets = cf.return_blocks()
-        ok = all(cf.must_pass(ib, r) and cf.must_pass(ab, r) for r in rets)
+        rec = [ib] + [b0 for b0, i0, st0, rs in slots]
+        ok = all(cf.must_pass(ab, r) and r not in cf.reachable_from(cf.entry, avoid=rec) for r in rets) and cf.entry not in rets
         ctx.ob(R, ST + name, "both-on-every-path", ok, "insert/append are not on every path of %s" % name, fn=f,
                sample="insert and append dominate return")
 
@@ -210,9 +224,28 @@ def _short(o):
     return fmt(o)[:60]
 
 
+def r_prepare(ctx, cfg, R="C06.R3"):
+    """what is committed is everything the transaction did: `prepare` hands out the cache's log as it is - the `rep_log` of
+    the cache it consumes, not pruned, reordered or rebuilt on the way (an op dropped from the log is a write that the
+    transaction saw and the base never gets)"""
+    F, P = cfg.facts, cfg.prov
+    key = T + "StorageTransaction::prepare"
+    f = ctx.need_fn(R, key)
+    if f is None:
+        return
+    ret = P.ret(f)
+    whole = just(ret, lambda o: o[0] == "field" and o[2] == "rep_log" and is_param(o[1], "self")) and not contains(ret, lambda x: x[0] == "upd")
+    # nothing is called on the log (or on anything else) on the way: `retain`, `dedup`, `sort`, `truncate`, a rebuilt log
+    calls = sorted({t["callee"]["key"] for g in F.lexical(key) for b, t in g.calls()
+                    if any(contains(a, lambda x: x[0] == "field" and x[2] in ("rep_log", "ops_log")) for a in P.call_args(g, t, b))})
+    ctx.ob(R, key, "hands-out-the-whole-log", whole and not calls,
+           "prepare answers %s%s" % (fmt(ret)[:120], (" after calling %s" % calls[:4]) if calls else ""), fn=f, sample="self.rep_log")
+
+
 def r3(ctx, cfg):
     F, P = cfg.facts, cfg.prov
     R = "C06.R3"
+    r_prepare(ctx, cfg, R)
     key = T + "RepLog::commit"
     f = ctx.need_fn(R, key)
     if f is not None:
@@ -690,9 +723,42 @@ def r6(ctx, cfg, R="C06.R6"):
             ev = [e for e in s_ if isinstance(e, tuple)]
             rets = [e for e in ev if e[0] == "ret" or (len(e) > 1 and e[1] == "ret")]
             return tuple(e for e in ev if e not in rets) + tuple(rets[-1:])
+        def skipped_by_the_caller():
+            """the iterative spelling of "a deleted entry yields nothing and the merge goes on": take_left answers None for it and
+            `next` never returns that None - the result of take_left reaches the caller only under `is_some()`, and the other
+            side of that test leads back to the peeks (a loop instead of the recursion, same calls on the base iterator)"""
+            fn = F.fn("<transactions::MergeOverlay as std::iter::Iterator>::next")
+            if fn is None:
+                return False
+
+            def has_tl(o):
+                return contains(o, lambda x: x[0] == "call" and x[1] == key)
+            cases = [(v, cs) for v, cs, site in q.value_cases(P, fn, 0) if has_tl(v)]
+            if not cases:
+                return False
+            for v, cs in cases:
+                if not any((c[0] == "bool" and c[1][0] == "is_some" and c[1][2] is True and has_tl(c[1][1][0])) or
+                           (c[0] == "variant_in" and c[2] == ("Some",) and has_tl(c[1])) for e, c in cs):
+                    return False
+            cn = cfg_of(fn)
+            peeks = [b for b, t in fn.calls() if t["callee"]["key"] == "std::iter::Peekable::peek" and _self_field(P.call_args(fn, t, b)[0], "left")]
+            tests = [(te, fe) for b, pred, args, te, fe in q.guards(P, fn) if pred == "is_some" and has_tl(args[0])]
+            for b in fn.order:
+                t = fn.blocks[b]["term"]
+                if t["k"] == "switch" and "discr_of" in t and has_tl(P.place(fn, t["discr_of"], (b, "t"))):
+                    for e, v, n, tb in cn.switch_edges(b):
+                        if n == "None":
+                            tests.append((None, e))
+            if not peeks or not tests:
+                return False
+            return all(fe is not None and not any(r in cn.reachable_from(fe, avoid=peeks) for r in cn.return_blocks()) for te, fe in tests)
+
         for combo, seqs in sorted(table.items()):
             got = {outcome(s) for s in seqs}
-            ctx.ob(R, key, "take_left(%s)" % combo[0], got == {exp[combo]}, "take_left yields %s, expected %s" % (sorted(got), exp[combo]), fn=f,
+            ok = got == {exp[combo]}
+            if not ok and combo == ("Delete",) and got == {(("ret", "None{}"),)} and skipped_by_the_caller():
+                ok = True
+            ctx.ob(R, key, "take_left(%s)" % combo[0], ok, "take_left yields %s, expected %s" % (sorted(got), exp[combo]), fn=f,
                    sample=str(exp[combo]))
         # exactly one left.next() on entry
         nx = [(b, t) for b, t in f.calls() if t["callee"]["name"] == "next" and _self_field(P.call_args(f, t, b)[0], "left")]
